@@ -29,7 +29,7 @@ func TestMain(m *testing.M) { os.Exit(evid.Main(m)) }
 var ev = evid.For(prop)
 
 func init() {
-	ev.SetRule("cases = (handler configuration: model or collection; transformer none / IDTransformer / custom TransformFuncs that project and rename fields and map ids; default none / empty / non-trivial; store mockstore or badgerstore) x (history of 1-12 Create/Update/Delete mutations over 1-3 ids with values made of primitives, references, soft references and data values, including updates that keep the served representation and delete-then-recreate); a reference RES client fetches every resource first, applies the published events in order after each mutation (indexes must be in range when applied, create only when missing, delete only when present) and must equal a fresh get; plus bounded-exhaustive: every ordered pair of collections of length <=4 over {a,b,c} and every pair of models over 3 keys x {absent,1,2}; a history is non-trivial when it has a collection update whose LCS is neither empty nor everything, or a model change with >=1 removed and >=1 changed key, or a create/delete with a default configured; distinct = hash of the case")
+	ev.SetRule("cases = (handler configuration: model or collection; transformer none / IDTransformer / custom TransformFuncs that project and rename fields and map ids; default none / empty / non-trivial; store mockstore or badgerstore) x (history of 1-12 Create/Update/Delete mutations over 1-3 ids with values made of primitives, references, soft references and data values, including updates that keep the served representation and delete-then-recreate); a reference RES client fetches every resource first, applies the published events in order after each mutation (indexes must be in range when applied, create only when missing, delete only when present) and must equal a fresh get; plus bounded-exhaustive: every ordered pair of collections of length <=4 over {a,b,c} and every pair of models over 3 keys x {absent,1,2}; a history is non-trivial when it has a collection update whose LCS is neither empty nor everything, or a model change with >=1 removed and >=1 changed key, or a create/delete with a default configured; distinct = hash of the case Mutations may share a write transaction with the previous one (non-trivial). Concurrent-get cases: a goroutine sends up to 400 gets while the mutations run; every response value plus the events published after it must give the final representation (non-trivial when some get has events both before and after it).")
 	ev.Assume("values are compared as JSON values; a mutation whose before and after Go values are deeply equal must publish nothing")
 }
 
